@@ -101,6 +101,37 @@ def own_body(ctx: H.BaseCtx):
                 except Exception as e:
                     ctx.unexpected_exception(e, name)
                 check_unmodified(ctx, ops, snap, what="argument of %s" % name)
+            if not ctx.symbolic:
+                # special values (nan, inf, -0.0, subnormal): output and cleaning code likes to "normalise" them -- not in the argument
+                import io
+                from .. import special as SP
+
+                q0, q1 = numpoly.variable(2)
+                for pair in SP.PAIRS:
+                    for sp in (numpoly.polynomial([pair[0] * q0 + pair[1], -0.0 * q1 + pair[0]]), numpoly.polynomial([[pair[0], -0.0], [pair[1] * q0, 5e-324 * q1]])):
+                        before = SP.bytes_of(sp)
+                        for name, f in (
+                            ("savetxt", lambda: numpoly.savetxt(io.StringIO(), sp)),
+                            ("savetxt(fmt)", lambda: numpoly.savetxt(io.StringIO(), sp, fmt="%.3e", header="h")),
+                            ("array_repr(suppress_small=True)", lambda: numpoly.array_repr(sp, suppress_small=True)),
+                            ("str", lambda: str(sp)),
+                            ("pickle", lambda: __import__("pickle").dumps(sp)),
+                            ("clean_attributes", lambda: numpoly.clean_attributes(sp)),
+                            ("isfinite", lambda: numpoly.isfinite(sp)),
+                            ("absolute", lambda: numpoly.absolute(sp)),
+                            ("sum", lambda: numpoly.sum(sp)),
+                            ("p + 0", lambda: sp + 0),
+                            ("p * 1", lambda: sp * 1),
+                            ("to tonumpy of the constant part", lambda: numpoly.tonumpy(sp(0, 0) if callable(sp) else sp)),
+                        ):
+                            try:
+                                with numpy.errstate(all="ignore"):
+                                    f()
+                            except Exception:
+                                pass
+                            if SP.bytes_of(sp) != before:
+                                ctx.fail("mutated", "%s changed the bytes of its argument (coefficients incl. %s, -0.0, 5e-324)" % (name, pair))
+                                before = SP.bytes_of(sp)
         elif fn == "out":
             # explicit targets are exempt; the *other* arguments are not
             import numpoly as npo
